@@ -696,8 +696,15 @@ fn observe(text: &str, level: usize, doc: bool) -> Option<Value> {
         s
     })
     .unwrap_or_else(|_| "P".to_string());
+    // char::is_alphabetic / is_alphanumeric on the non-ASCII characters of the text (parameters of the lexer model)
+    let mut alpha: Vec<u32> = text.chars().filter(|c| !c.is_ascii() && c.is_alphabetic()).map(|c| c as u32).collect();
+    alpha.sort();
+    alpha.dedup();
+    let mut alnum: Vec<u32> = text.chars().filter(|c| !c.is_ascii() && c.is_alphanumeric()).map(|c| c as u32).collect();
+    alnum.sort();
+    alnum.dedup();
     Some(json!({
-        "t": cps, "level": level, "doc": doc, "tokens": toks, "events": events_json(&tr.events), "tree": term,
+        "t": cps, "level": level, "doc": doc, "tokens": toks, "alpha": alpha, "alnum": alnum, "events": events_json(&tr.events), "tree": term,
         "rebuilt_same": rebuilt == term, "ops": ops_json(&tr.ops), "discipline": discipline(&tr.events, tr.mark_level),
         "tree_text_ok": root.text().to_string() == text, "nerrors": tr.tree.get_errors().len(),
     }))
